@@ -174,6 +174,16 @@ CLAIMED = {
         design_ref="DESIGN.md 3 C15; engines/kani/NOTES_C15.md",
         note="Algebraic claims (Lagrange interpolation, aggregate verifies) are not posed; choose only for <= 2 commitments (thorough).",
     ),
+    "C17": dict(
+        engine="llsym",
+        technique="symbolic execution of optimized LLVM IR: (1) every call pattern in the bound with all message/key bytes symbolic and the compression function uninterpreted, against the standards' padding/chaining rules (QF_UFBV / hash-consed equality); (2) each compression function equal to the standard's round function by word-level sweeping with z3 lemmas",
+        category="model_checking",
+        text=("SHA-2, SHA-3/SHAKE and BLAKE2s buffering, padding, counters, output extraction, reset/clone/keyed modes are "
+              "decided for all messages at every enumerated call shape (10k shapes quick, 360k thorough); the four "
+              "compression functions are proved equal to FIPS 180-4 / FIPS 202 / RFC 7693 round functions."),
+        design_ref="DESIGN.md 3 C17; engines/llsym/NOTES_C17.md",
+        note="Lengths up to 2 blocks + 9, at most two input split points / three extract calls; AVX2 and portable BLAKE2s paths are not compiled in the default build.",
+    ),
     "C06": dict(
         engine="llsym",
         technique="symbolic execution of optimized LLVM IR of every Point::set_decode with all bytes symbolic; bit-vector queries (z3) on over-approximated cones for: exact status, failure => NEUTRAL, rejection of every byte-level forbidden string",
@@ -234,7 +244,7 @@ man = {
          "kind_free_text": "Kani/CBMC proof harnesses wired into a scratch copy of the crate; concrete-playback replay"},
         {"name": "polyid", "path": "engines/polyid", "serves_properties": ["C03", "C04", "C10", "C14"],
          "kind_free_text": "interpreter over rustc MIR executing point formulas over an abstract ring; z3 decides polynomial identities"},
-        {"name": "llsym", "path": "engines/llsym", "serves_properties": ["C01", "C02", "C05", "C06", "C07", "C08", "C09", "C11", "C12", "C18", "C19", "C20"],
+        {"name": "llsym", "path": "engines/llsym", "serves_properties": ["C01", "C02", "C05", "C06", "C07", "C08", "C09", "C11", "C12", "C17", "C18", "C19", "C20"],
          "kind_free_text": "symbolic executor over rustc's optimized LLVM IR (concrete control, symbolic data) with bit-vector and integer SMT encodings; z3/cvc5 decide"},
     ],
     "checks": checks,
